@@ -8,7 +8,7 @@ NEEDS_SHIM = False
 BUDGET = {"quick": 2000, "thorough": 50000}
 MIN_EVALS = {"quick": 3000, "thorough": 80000}
 RULE = (
-    "seeded random cases: grid dataset of 1-2 axes with dimension coordinates on all, none or a random subset of the dimensions (with attributes), 0-5 random "
+    "seeded random cases: grid dataset of 1-2 axes (a quarter of them two faces joined by same-axis or axis-swapping links) with dimension coordinates on all, none or a random subset of the dimensions (with attributes), 0-5 random "
     "non-dimension coordinates (0-D/1-D/N-D on any mix of positions and an extra dim, with attributes), an input at a "
     "random position carrying the dataset's coordinates or none, one of diff/interp/min/max/cumsum over one or two axes "
     "with any of the 8 shifts (padded and unpadded paths), keep_coords true/false/default. Verdicts: coordinate set of "
@@ -22,11 +22,22 @@ REQUIRED_REACH = ["xgcm.grid_ufunc._reattach_coords", "xgcm.padding._strip_all_c
 
 
 def gen_case(rng, i, tier):
-    nax = rng.randint(1, 2)
-    layout = gen.random_layout(rng, nax=nax, nmin=2, nmax=4, p=0.6, at_least=2)
+    faces = rng.random() < 0.25
+    if faces:
+        # face-connected grid: two faces joined by an axis-swapping link, or side by side
+        nax, n = 2, rng.randint(2, 3)
+        layout = {"axes": [{"name": a, "pos": [["center", a.lower()], ["left", a.lower() + "l"]], "n": n} for a in ("X", "Y")]}
+        fc = rng.choice([{"0": {"X": [None, [1, "Y", False]]}, "1": {"Y": [[0, "X", False], None]}},
+                         {"0": {"X": [None, [1, "X", False]]}, "1": {"X": [[0, "X", False], None]}},
+                         {"0": {"X": [[1, "X", False], [1, "X", False]], "Y": [[0, "Y", False], [0, "Y", False]]},
+                          "1": {"X": [[0, "X", False], [0, "X", False]], "Y": [[1, "Y", False], [1, "Y", False]]}}])
+    else:
+        nax = rng.randint(1, 2)
+        layout = gen.random_layout(rng, nax=nax, nmin=2, nmax=4, p=0.6, at_least=2)
+        fc = None
     axn = [a["name"] for a in layout["axes"]]
     cm = gen.layout_coords(layout)
-    alld = [d for a in axn for d in cm[a].values()]
+    alld = [d for a in axn for d in cm[a].values()] + (["face"] if faces else [])
     # dimension coordinates: everywhere, nowhere, or only on some of the dimensions
     k = rng.random()
     withdim = True if k < 0.45 else (False if k < 0.6 else [d for d in alld if rng.random() < 0.5])
@@ -42,15 +53,22 @@ def gen_case(rng, i, tier):
     opax = rng.sample(axn, k)
     pos = {a: rng.choice(list(cm[a])) for a in axn}
     to = {a: (rng.choice([p for p in cm[a] if p != "center"]) if pos[a] == "center" else "center") for a in opax}
-    dims = [cm[a][pos[a]] for a in axn if a in opax or rng.random() < 0.7] + (["time"] if rng.random() < 0.6 else [])
+    if faces:
+        pos = {a: "center" for a in axn}
+        to = {a: "left" for a in opax}
+        dims = [cm[a]["center"] for a in axn] + ["face"] + (["time"] if rng.random() < 0.6 else [])
+    else:
+        dims = [cm[a][pos[a]] for a in axn if a in opax or rng.random() < 0.7] + (["time"] if rng.random() < 0.6 else [])
     rng.shuffle(dims)
     return {
         "layout": layout, "withdim": withdim, "aux": aux, "dim_attrs": dim_attrs, "time_coord": rng.random() < 0.7,
         "pos": pos, "dims": dims, "opax": opax, "to": to,
-        "op": rng.choice(["diff", "interp", "min", "max", "cumsum"]),
+        # cumsum is not drawn on face-connected grids: it trims the array before padding, so faces are no longer
+        # square and an axis-swapping link cannot be padded (outside what any of the properties states)
+        "op": rng.choice(["diff", "interp", "min", "max"] if faces else ["diff", "interp", "min", "max", "cumsum"]),
         "keep_coords": rng.choice([True, False, None]), "carry": rng.random() < 0.5,
         "name": rng.choice(["nm", "temperature", None]), "boundary": rng.choice(["fill", "extend", "periodic"]),
-        "dseed": rng.getrandbits(31),
+        "dseed": rng.getrandbits(31), "fc": fc,
     }
 
 
@@ -58,6 +76,10 @@ def build(desc):
     from xgcm import Grid
 
     ds = gen.build_ds(desc["layout"], with_coords=desc["withdim"], extra=None)
+    fc = desc.get("fc")
+    if fc:
+        ds = ds.assign_coords(face=("face", [0, 1])) if (desc["withdim"] is True or (desc["withdim"] not in (True, False) and "face" in desc["withdim"])) \
+            else ds.assign(holder_face=(("face",), np.zeros(2)))
     sizes = dict(ds.sizes)
     sizes["time"] = 2
     if desc["time_coord"]:
@@ -71,7 +93,11 @@ def build(desc):
         shp = [sizes[d] for d in a["dims"]]
         vals = np.arange(int(np.prod(shp)) if shp else 1, dtype=float).reshape(shp) + 100 * len(a["name"])
         ds = ds.assign_coords({a["name"]: (tuple(a["dims"]), vals, a["attrs"])})
-    g = Grid(ds, coords=gen.layout_coords(desc["layout"]), periodic=False, autoparse_metadata=False)
+    kw = {}
+    if fc:
+        kw["face_connections"] = {"face": {int(f): {a: tuple(None if l is None else (l[0], l[1], bool(l[2])) for l in lr) for a, lr in d.items()}
+                                           for f, d in fc.items()}}
+    g = Grid(ds, coords=gen.layout_coords(desc["layout"]), periodic=False, autoparse_metadata=False, **kw)
     return ds, g
 
 
@@ -94,7 +120,7 @@ def run_case(ctx, desc):
     axarg = opax if len(opax) > 1 else opax[0]
     rdims = [{cm[a][desc["pos"][a]]: cm[a][to[a]] for a in opax}.get(d, d) for d in dims]
     expc = {c for c, v in ds.coords.items() if set(v.dims) <= set(rdims) and (kc or c in rdims)}
-    ckey = (op, [(desc["pos"][a], to[a]) for a in opax], desc["keep_coords"], desc["carry"], desc["withdim"] if isinstance(desc["withdim"], bool) else "mixed",
+    ckey = (op, "faces" if desc.get("fc") else "simple", [(desc["pos"][a], to[a]) for a in opax], desc["keep_coords"], desc["carry"], desc["withdim"] if isinstance(desc["withdim"], bool) else "mixed",
             min(3, len(expc)))
     ctx.judged(ckey, len(expc) > 0)
     try:
